@@ -584,6 +584,7 @@ def inplace_on_shared(mod: Mod):
     for q, f in mod.funcs.items():
         params = {a.arg for a in f.args.posonlyargs + f.args.args + f.args.kwonlyargs} - {"self", "cls"}
         shared = {}
+        slots = {}
         order = [st for st in ast.walk(f) if isinstance(st, (ast.Assign, ast.AugAssign, ast.Expr))]
         order.sort(key=lambda st: (st.lineno, st.col_offset))
         for st in order:
@@ -595,8 +596,20 @@ def inplace_on_shared(mod: Mod):
                     shared[tgt] = shared[st.value.id]
                 else:
                     shared.pop(tgt, None)
+            elif isinstance(st, ast.Assign) and len(st.targets) == 1 and isinstance(st.targets[0], ast.Subscript) \
+                    and isinstance(st.targets[0].value, ast.Name) and st.targets[0].value.id not in shared:
+                # a slot of a local container: it holds (not copies) whatever is stored into it
+                slot = (st.targets[0].value.id, src(st.targets[0].slice))
+                if shared_value_expr(st.value, set(shared)):
+                    slots[slot] = src(st.value)[:60]
+                else:
+                    slots.pop(slot, None)
             elif isinstance(st, ast.AugAssign) and isinstance(st.target, ast.Name) and st.target.id in shared:
                 out.append((q, st, f"augmented assignment on {st.target.id} = {shared[st.target.id]}"))
+            elif isinstance(st, ast.AugAssign) and isinstance(st.target, ast.Subscript) and isinstance(st.target.value, ast.Name) \
+                    and (st.target.value.id, src(st.target.slice)) in slots:
+                slot = (st.target.value.id, src(st.target.slice))
+                out.append((q, st, f"augmented assignment on {slot[0]}[{slot[1]}] = {slots[slot]}"))
             elif isinstance(st, ast.Expr) and isinstance(st.value, ast.Call) and isinstance(st.value.func, ast.Attribute) \
                     and st.value.func.attr in INPLACE_METHODS:
                 root = st.value.func.value
